@@ -53,7 +53,7 @@ pub const SUBS: &[Sub] = &[
         name: "c07_entry_loom",
         property: "C07",
         configs: crate::h_c07::configs,
-        rule: "configs = writers {1x1, 1x2, 1x3, 1+1, 2+1 writes} x readers {typed guard, untyped+downcast guard, mapped guard, typed then mapped; 1-2 reader threads}; each reader copies value and reload id under its guard, yields, and looks again; for each config loom enumerates every interleaving of the entry's RwLock and atomic operations within the preemption bound. distinct = distinct (what each reader saw, final value, final id) observations",
+        rule: "configs = writers {1x1, 1x2, 1x3, 1+1, 2+1 writes} x readers {typed guard, untyped+downcast guard, mapped guard, typed then mapped, copied(), cloned(), read().clone(), Debug; 1-2 reader threads}; each reader copies value and reload id under its guard (or through the accessor), yields, and looks again; every access to the entry's value is a loom-tracked read/write event (TrackedCell), so an access that is not ordered by the lock is a `data-race`; for each config loom enumerates every interleaving of the entry's RwLock and atomic operations within the preemption bound. distinct = distinct (what each reader saw, final value, final id) observations",
         bound: "1-2 writer threads, 1-2 reader threads, <=3 writes; same configs in both tiers; one writer + one reader with <=2 writes: unbounded",
     },
     Sub {
@@ -62,6 +62,13 @@ pub const SUBS: &[Sub] = &[
         configs: crate::h_c06::configs,
         rule: "configs = n in 1..3 writes by one writer x pollers {ReloadWatcher made before the writes / by the reader / from the untyped handle, reloaded_global, both alternately; 1-3 polls; 1-3 polling threads}; `if reported { read value }` after every poll; final polls after the joins; for each config loom enumerates every interleaving of the entry's RwLock and atomic operations within the preemption bound. distinct = distinct (poll answers per thread, final flag) observations",
         bound: "1 writer thread, 1-3 poller threads, <=3 writes, <=3 polls; same configs in both tiers; one poller with <=2 polls and <=2 writes: unbounded",
+    },
+    Sub {
+        name: "c08_answers_loom",
+        property: "C08",
+        configs: crate::h_c08::configs,
+        rule: "configs = rounds per caller for 1-3 caller threads (1, 2, 1+1, 1+2, 2+2, 1+1+1; thorough also 1+1+2) against one reloader thread that answers a harness FIFO in order; the code under test is the real `struct Answers`/`impl Answers` of hot_reloading/mod.rs over the real std-flavoured Mutex/Condvar wrappers of utils/private.rs (parking_lot OFF) over loom's Mutex/Condvar; for each config loom enumerates every interleaving of the lock / condvar / atomic operations within the preemption bound; deadlock = loom finds no runnable thread. distinct = distinct event logs (request / publish / return order)",
+        bound: "1 reloader + 1-3 caller threads, 1-2 rounds per caller; preemption bound chosen per config (one caller: none; quick: 1+1 -> 3, 1+2 -> 2, 2+2 -> 2, 1+1+1 -> 1; thorough: 1+1 -> 5, 1+2 -> 3, 2+2 -> 3, 1+1+1 -> 2, 1+1+2 -> 1)",
     },
 ];
 
@@ -126,7 +133,7 @@ fn tier_bound(thorough: bool) -> usize {
     }
 }
 fn per_config_cap(thorough: bool) -> Duration {
-    let s = std::env::var("KERNMC_CONFIG_SECS").ok().and_then(|s| s.parse().ok()).unwrap_or(if thorough { 420 } else { 35 });
+    let s = std::env::var("KERNMC_CONFIG_SECS").ok().and_then(|s| s.parse().ok()).unwrap_or(if thorough { 600 } else { 35 });
     Duration::from_secs(s)
 }
 
@@ -219,6 +226,7 @@ fn child_main(a: &[String]) -> ! {
         b.preemption_bound = match cfg.bound {
             Bound::Unbounded => None,
             Bound::Tier => Some(bound),
+            Bound::Fixed(n) => Some(n),
         };
         b.max_branches = 2_000_000;
         b.max_duration = Some(cap);
@@ -244,7 +252,7 @@ fn child_main(a: &[String]) -> ! {
         append(
             &out,
             &json!({"t": "done", "idx": idx, "name": cfg.name,
-                "bound": match cfg.bound { Bound::Unbounded => "unbounded".to_string(), Bound::Tier => bound.to_string() },
+                "bound": match cfg.bound { Bound::Unbounded => "unbounded".to_string(), Bound::Tier => bound.to_string(), Bound::Fixed(n) => n.to_string() },
                 "iters": ITERS.load(Relaxed), "branches": BRANCHES.load(Relaxed), "ops": OPS.load(Relaxed), "cases": CASES.load(Relaxed),
                 "outcomes": outs, "sample": sample, "secs": secs, "capped": t0.elapsed() >= cap}),
         );
@@ -355,13 +363,47 @@ fn classify(msg: &str) -> String {
     if l.contains("leaked") {
         "leak".into()
     } else if l.contains("deadlock") {
-        "deadlock".into()
+        // loom: "deadlock; threads = [(Id(0), Blocked(..)), (Id(1), Terminated), ..]": keep which
+        // threads (in spawn order, main first) are blocked / terminated — it tells deadlocks apart
+        let mut shape = String::new();
+        let mut rest = msg;
+        while let Some(i) = rest.find("(Id(") {
+            rest = &rest[i + 4..];
+            let Some(j) = rest.find("), ") else { break };
+            let st = &rest[j + 3..];
+            shape.push(if st.starts_with("Blocked") {
+                'B'
+            } else if st.starts_with("Terminated") {
+                'T'
+            } else if st.starts_with("Runnable") {
+                'R'
+            } else if st.starts_with("Yield") {
+                'Y'
+            } else {
+                '?'
+            });
+        }
+        if shape.is_empty() {
+            "deadlock".into()
+        } else {
+            format!("deadlock:{shape}")
+        }
     } else if l.contains("max_branches") || l.contains("exceeded") || l.contains("branches") {
         "no-progress".into()
     } else if l.contains("already mutably borrowed") || l.contains("already borrowed") {
         "harness-borrow".into()
-    } else if l.contains("causality") || l.contains("concurrent") {
-        "loom-race".into()
+    } else if l.contains("causality violation") || l.contains("concurrent") {
+        // loom's happens-before check on a tracked cell (entry value marker) or atomic; the suffix
+        // says which access found the other one unordered
+        if l.contains("concurrent write accesses") {
+            "data-race:write-write".into()
+        } else if l.contains("concurrent read and write accesses to") {
+            "data-race:write".into() // a write that is not ordered after an earlier read
+        } else if l.contains("concurrent read and write accesses") {
+            "data-race:read".into() // a read that is not ordered after an earlier write
+        } else {
+            "data-race".into()
+        }
     } else {
         "panic".into()
     }
@@ -424,6 +466,7 @@ fn run_subcheck(args: &vcommon::Args, sub: &Sub) -> vcommon::SubResult {
     let bound = tier_bound(thorough);
     let mut res = vcommon::SubResult::new(sub.property, sub.name);
     let (done, fails, spawns, n) = run_all(sub, tier, thorough, args.jobs, None);
+    let mut per_bound: std::collections::BTreeMap<String, u64> = Default::default();
     let mut n_tier = 0u64;
     let mut n_unb = 0u64;
     let mut slow: Option<(f64, String, u64)> = None;
@@ -446,6 +489,7 @@ fn run_subcheck(args: &vcommon::Args, sub: &Sub) -> vcommon::SubResult {
         } else {
             n_tier += 1
         }
+        *per_bound.entry(v["bound"].as_str().unwrap_or("?").to_string()).or_insert(0u64) += 1;
         if v["capped"].as_bool() == Some(true) {
             res.cap(format!("config `{}` stopped at the per-config time limit after {} executions", v["name"].as_str().unwrap_or(""), iters));
         }
@@ -480,16 +524,18 @@ fn run_subcheck(args: &vcommon::Args, sub: &Sub) -> vcommon::SubResult {
     }
     res.traces_validated = bindings + if sub.name == "c18_reloadid" { done.iter().filter(|v| !v["name"].as_str().unwrap_or("").starts_with("seq:")).map(|v| v["iters"].as_u64().unwrap_or(0)).sum::<u64>() } else { 0 };
     res.bound = format!(
-        "loom 0.7.2 (C11 model, DPOR); {}; preemption bound {bound} for {n_tier} configs, none (unbounded) for {n_unb} configs; every config completed: {}",
+        "loom 0.7.2 (C11 model, DPOR); {}; preemption bound -> number of configs: {}; every config completed: {}",
         sub.bound,
+        per_bound.iter().map(|(b, n)| format!("{b}: {n}")).collect::<Vec<_>>().join(", "),
         res.exhaustive
     );
+    let _ = (n_tier, n_unb);
     res.rule = sub.rule.to_string();
     res.note("configs", json!(n));
     res.note("configs_passed", json!(done.len()));
     res.note("configs_failed", json!(fails.len()));
     res.note("child_processes", json!(spawns));
-    res.note("preemption_bound_completed", json!(if n_tier > 0 { json!(bound) } else { json!("unbounded") }));
+    res.note("preemption_bound_completed", json!(per_bound));
     if let Some((s, name, it)) = slow {
         res.note("slowest_config", json!({"config": name, "secs": (s * 100.0).round() / 100.0, "executions": it}));
     }
@@ -515,10 +561,15 @@ fn replay(file: &str) -> ! {
     if let Some(b) = r["bound"].as_u64() {
         std::env::set_var("KERNMC_PREEMPTION_BOUND", b.to_string());
     }
-    if !(sub.configs)(thorough).iter().any(|c| c.name == config) {
-        machinery(&format!("config `{config}` is not part of {subname} ({tier})"));
-    }
-    println!("replay: {} ({}) config `{}` tier {} preemption bound {}", sub.name, sub.property, config, tier, tier_bound(thorough));
+    let Some(cfg) = (sub.configs)(thorough).into_iter().find(|c| c.name == config) else {
+        machinery(&format!("config `{config}` is not part of {subname} ({tier})"))
+    };
+    let eff = match cfg.bound {
+        Bound::Unbounded => "none".to_string(),
+        Bound::Tier => tier_bound(thorough).to_string(),
+        Bound::Fixed(n) => n.to_string(),
+    };
+    println!("replay: {} ({}) config `{}` tier {} preemption bound {}", sub.name, sub.property, config, tier, eff);
     println!("recorded key : {}", w["key"].as_str().unwrap_or("?"));
     let (done, fails, _, _) = run_all(sub, tier, thorough, 1, Some(config));
     for v in &done {
